@@ -57,6 +57,7 @@ func c27Gen(runSeed uint64, tier string) *gen.Scenario {
 	g := gen.New(runSeed ^ 0xc27)
 	sc := &gen.Scenario{Version: 1, Harness: "hauth", Knobs: map[string]int64{}}
 	k := sc.Knobs
+	k["jwk_without_alg"] = int64(g.Intn(2))
 	k["aliases"] = int64(g.Intn(3))
 	k["subjects"] = int64(g.Intn(3)) // 0 = any subject
 	k["psk_keys"] = int64(1 + g.Intn(3))
@@ -282,7 +283,12 @@ func c27Exec(t *testing.T, sc *gen.Scenario, trace bool) *harness.Outcome {
 		defer simrt.End()
 		aliases := []string{alias1, alias2}[:sc.Knob("aliases", 0)]
 		subjects := []string{"s0", "s1"}[:sc.Knob("subjects", 0)]
-		jwks := keyfunc.NewGiven(map[string]keyfunc.GivenKey{"k1": keyfunc.NewGivenRSA(&tk.PublicKey, keyfunc.GivenKeyOptions{Algorithm: "RS256"})})
+		// the "alg" member of a JWK is optional (RFC 7517 §4.4): half of the runs publish the key without it
+		keyOpts := keyfunc.GivenKeyOptions{Algorithm: "RS256"}
+		if sc.Knob("jwk_without_alg", 0) == 1 {
+			keyOpts = keyfunc.GivenKeyOptions{}
+		}
+		jwks := keyfunc.NewGiven(map[string]keyfunc.GivenKey{"k1": keyfunc.NewGivenRSA(&tk.PublicKey, keyOpts)})
 		auth := &oidc.RemoteOidcAuthenticator{MainIssuer: issuer, IssuerAliases: aliases, Audience: audience, Subjects: subjects, ClientIDClaims: []string{"azp", "client_id"}, JWKs: jwks}
 		var pskKeys []string
 		for i := 0; i < int(sc.Knob("psk_keys", 1)); i++ {
